@@ -9,11 +9,6 @@ def k(text, technique, ref):
 
 
 CLAIMED = {
-    "C03": k("For every armored string of up to 16 (thorough: 32) characters over all 256 byte values and every fill count 0..=5 the solver shows "
-             "unarmor's output equal to an independent bit-window reference (length, every byte, fill bits cleared; error iff a byte is outside the "
-             "alphabet), in all three build configurations. Bounded model checking is the right level: the function is a short loop whose interesting "
-             "inputs (straddling bytes, fill > bits in final byte, empty input) are single assignments.",
-             "Kani/CBMC bounded model checking vs. bit-window reference", "DESIGN.md C03"),
     "C04": k("Per message layout (and layout branch) the whole payload is symbolic and the solver proves every integer / flag / identifier field equal to "
              "bits(payload, offset, width) from the M.1371 tables - jointly for all 2^(8*len) payloads, so independence of neighbours is included.",
              "Kani/CBMC: decoded field == bits(payload, off, width), all payloads", "DESIGN.md C04"),
@@ -24,8 +19,10 @@ CLAIMED = {
              "Kani/CBMC: is_none() <=> bits == sentinel", "DESIGN.md C11"),
     "C12": k("Every code of every enumerated field against the specification table, injectivity as a two-variable query, round trip of ship types, wiring per type.",
              "Kani/CBMC: code table + injectivity query", "DESIGN.md C12"),
-    "C13": k("Decoded text equals a reference 6-bit decode + three explicit trim loops for all 64^k strings, k <= 8 quick / <= 20 thorough, through the real message parsers.",
-             "Kani/CBMC: byte-for-byte equality with reference decode+trim", "DESIGN.md C13"),
+    "C13": k("Decoded text equals a reference 6-bit decode + three explicit trim loops for all 64^k strings, k <= 8 quick / <= 20 thorough, through the real message parsers; "
+             "the bit range handed to the decoder is checked separately (range wiring, decoder stubbed by a length-preserving stub) for the variable-length texts at the "
+             "1008-bit maximum (156 / 161 characters), around the 20-character capacity and at every truncation length of type 5's destination.",
+             "Kani/CBMC: byte-for-byte equality with reference decode+trim + range-wiring harnesses at maximal lengths", "DESIGN.md C13 / 0a"),
     "C14": k("Per type a symbolic payload length: rejected iff the mandatory part is missing, element count = complete elements present, every reported value = bits at its position.",
              "Kani/CBMC: symbolic payload length per type", "DESIGN.md C14"),
     "C15": k("Binary payload bytes equal the input bytes after the header, count = length - header, at concrete lengths 0..120 with symbolic contents; no-alloc rejects > 119.",
@@ -43,9 +40,17 @@ def m(text, technique, ref, engine="M"):
 
 
 CLAIMED.update({
+    "C03": m("Two deciders. Kani: for every armored string of up to 16 (thorough: 32) characters over all 256 byte values and every fill count 0..=5 unarmor's output "
+             "equals an independent bit-window reference (length, every byte, fill bits cleared; error iff a byte is outside the alphabet), three configurations. "
+             "Engine M (layer U): strings of ANY length (n <= 2^32) by loop-invariant queries over unarmor's MIR - base, one arbitrary iteration, exit - with the invariant "
+             "generated from the code (scalars linear in the iteration count; output = specification of the prefix, rest zero, for Skolem bit positions); counter-examples "
+             "are rebuilt as concrete strings and run through the real function natively before anything is reported. A length-threshold defect (e.g. at 385 characters) is "
+             "beyond any unrolling bound; the invariant argument is what reaches it.",
+             "Kani/CBMC bounded model checking vs. bit-window reference + MIR->SMT loop-invariant queries (z3, QF_ABV, Skolemised), native confirmation", "DESIGN.md C03 / 0a", "K+M"),
     "C01": m("Totality as the conjunction of bounded panic-freedom results: Kani's built-in checks over arbitrary payloads for unarmor and all 21 message parsers in the "
              "configurations (incl. the heapless capacity edges), and engine M's reachability queries for every MIR assert / unreachable edge of AisParser::parse "
-             "(from an arbitrary parser state, three configurations) and of the sentence parser (any line up to N bytes). Termination: all encoded bodies are loop-free; "
+             "(from an arbitrary parser state, three configurations) and of the sentence parser (any line up to N bytes); the hand-over contract between the two layers "
+             "(fill count 0..=5) is discharged as a query too and, if it fails, an actual panic is searched for natively. Termination: all encoded bodies are loop-free; "
              "Kani's unwinding assertions bound the payload loops.", "Kani/CBMC built-in checks + MIR->SMT panic-edge reachability (z3)", "DESIGN.md C01", "K+M"),
     "C02": m("The sentence parser and check_checksum executed from MIR on a fully symbolic line: accepted => XOR(up to the first '*') == hex value after it (<= 0xFF); checksum "
              "errors carry (transmitted, computed); well-formed + mismatch => checksum error; match => never a checksum error; plus the state-layer gate (error returned before "
@@ -72,7 +77,8 @@ CLAIMED.update({
              "(recorded known finding, the repair would break four pinned tests); a residual query pins the known behaviour exactly (first byte >> 2) so that any other deviation is reported.",
              "MIR->QF_BV sentence parser query with residual for the known finding (z3) + Kani leaf", "DESIGN.md C19", "K+M"),
     "C20": m("The binary's MIR (main, its closures, parse_nmea_line) executed with nondeterministic environment stubs: no panic edge for any line content / parser outcome, exactly one "
-             "stdout record per Complete line, one stderr record per rejected line, none for Incomplete, in order; counter-examples piped into the real binary.",
+             "stdout record per Complete line, one stderr record per rejected line, none for Incomplete, in order; counter-examples piped into the real binary. The sentence layer's panic edges and its hand-over contract to the payload layer are decided here as well; "
+             "a witness line is reported only if the real binary stops on it.",
              "MIR->SMT symbolic execution of the binary with environment stubs (z3), replay through a pipe", "DESIGN.md C20"),
 })
 NOT_APPLICABLE = {}
